@@ -410,9 +410,9 @@ def run(tier, seed):
                 rep.violation(*v)
             rep.inconclusive += part["inconclusive"]
             rep.harness_errors += part["errors"]
-            n_defs += part["n_defs"]
-            n_fields += part["n_fields"]
-            n_fp += part["n_fp"]
+            n_defs += part.get("n_defs", 0)
+            n_fields += part.get("n_fields", 0)
+            n_fp += part.get("n_fp", 0)
             for s in part["samples"]:
                 rep.sample(s)
             explorer.STATS.merge(part["stats"])
